@@ -1,2 +1,3 @@
 import GinjaxVerif.Properties.C19
 import GinjaxVerif.Properties.C15
+import GinjaxVerif.Properties.C17
